@@ -9,7 +9,7 @@
 use rust_dsymbols::covers::{covers, finite_universal_cover};
 use rust_dsymbols::delaney2d::toroidal_cover;
 use rust_dsymbols::derived::oriented_cover;
-use rust_dsymbols::dsyms::PartialDSym;
+use rust_dsymbols::dsyms::{PartialDSym, SimpleDSym};
 use rust_dsymbols::fundamental_group::{fundamental_group, inner_edges, FundamentalGroup};
 use std::collections::HashSet;
 use std::panic::{catch_unwind, AssertUnwindSafe};
@@ -387,6 +387,37 @@ fn main() {
         let ds = s.parse::<PartialDSym>().unwrap();
         if let Ok(c) = catch_unwind(AssertUnwindSafe(|| toroidal_cover(&ds))) {
             renumbered_variants(&mut ctx, &mut plan, &Tab::from_dsym(&c), &mut rng, 1, "cover");
+        }
+    }
+    // (S) the SimpleDSym representation: `fundamental_group` / `inner_edges` are generic over the DSym
+    //     trait; a sample of small symbols is asked again held as SimpleDSym (model comparison and the
+    //     cheap clauses only: kmax = 0, no order oracle).  Added after seeded change C03-m8 showed that
+    //     a defect confined to one trait impl is invisible to a universe that holds every symbol as
+    //     PartialDSym.
+    {
+        let mut k = 0usize;
+        let bounds: &[(usize, usize)] = if th { &[(2, 5), (3, 4)] } else { &[(2, 4), (3, 3)] };
+        for &(dim, nmax) in bounds {
+            for n in 1..=nmax {
+                for_each_dset(dim, n, |t0| {
+                    k += 1;
+                    if k % 3 != 0 && n > 2 {
+                        return;
+                    }
+                    let t = random_vs(t0, &mut rng, &[1, 2, 3, 4, 6]);
+                    let tags = format!("nt simple dim={} {}", t.dim, size_bucket(t.size));
+                    let ds: SimpleDSym = t.to_partial_dsym().into();
+                    ctx.case("fg_s", &tags, || format!("0 0 {}", t.enc()), || enc_fg(&fundamental_group(&ds)));
+                    ctx.case("inner_s", &tags, || t.enc(), || {
+                        let e = inner_edges(&ds);
+                        let mut s = e.len().to_string();
+                        for (d, i) in e {
+                            s.push_str(&format!(" {} {}", d, i));
+                        }
+                        s
+                    });
+                });
+            }
         }
     }
     ctx.finish();
